@@ -213,4 +213,40 @@ private def qMtuple : Qty := ⟨[⟨Sym.ofString "length", Sym.ofString "m", 1, 
 
 end examples
 
+/-! ## any two operands: Scalar or FractionScalar, table unit / `<unknown>` / empty quantity -/
+
+/-- ordering values of different quantity types raises `TypeError`: every operator, both classes and
+their mixtures, the quantity type `Unknown` and the empty quantity included (the guard comes before
+any conversion, so the `fix_unknown` identity conversion of `<unknown>` is never reached) -/
+theorem operand_order_cross_type_error (db : Db) (small : Rat) (op : Op) (a b : Operand)
+    (h : a.q.qtype ≠ b.q.qtype) : a.order db small op b = .error .type := by
+  unfold Operand.order
+  simp [h]
+
+/-- on two Scalars with table units the general operator is `Sc.order` -/
+theorem operand_order_scalar (db : Db) (small : Rat) (op : Op) (a b : Sc) :
+    Operand.order db small op (.sc a.v (.simple a.q)) (.sc b.v (.simple b.q)) = a.order db op b := by
+  unfold Operand.order Sc.order Sc.valuesToCompare
+  simp only [Operand.q, OrdQ.qtype, OrdQ.unit, Operand.valueIn, Operand.own]
+  by_cases h : a.q.qtype = b.q.qtype
+  · cases hc : b.q.convertScalarValue db b.v a.q.unit <;> simp [h]
+  · simp [h]
+
+/-- on two FractionScalars with table units the general operator is `FSc.order` -/
+theorem operand_order_fscalar (db : Db) (small : Rat) (op : Op) (a b : FSc) :
+    Operand.order db small op (.fsc a.v (.simple a.q)) (.fsc b.v (.simple b.q)) = a.order db small op b := by
+  unfold Operand.order FSc.order FSc.valuesToCompare
+  simp only [Operand.q, OrdQ.qtype, OrdQ.unit, Operand.valueIn, Operand.own]
+  by_cases h : a.q.qtype = b.q.qtype
+  · cases hc : convertFractionValue db small b.v b.q a.q.unit <;> simp [h]
+  · simp [h]
+
+/-- two operands on the empty quantity: Scalars compare their numbers; a FractionScalar on the right
+raises (as the code does: `ObtainQuantity('', ())`) -/
+theorem operand_order_empty (db : Db) (small : Rat) (op : Op) (a : Operand) (ha : a.q = .empty) (v : Rat) :
+    a.order db small op (.sc v .empty) = .ok (op.apply a.own v) := by
+  unfold Operand.order
+  rw [ha]
+  simp [Operand.q, OrdQ.qtype, Operand.valueIn]
+
 end Barril
